@@ -148,69 +148,132 @@ func c20Run(t *testing.T, in c20Input) (obs map[string]interface{}, extra map[st
 
 // ---------------------------------------------------------------- generation
 
+// A history is a sequence of SEGMENTS; a segment is a short run of related ops (so that the states the
+// property talks about — storage behind a contract, a handed-over denom, votes pending at export
+// time, … — are actually reached), interleaved with single random ops (≈ 20 %, incl. ops that the
+// implementation rejects: strangers changing admins, votes without prevote, removing absent entries).
 func genC20Case(r *Rng) c20Input {
 	var ops []c20Op
 	add := func(k string, a, b, c int) { ops = append(ops, c20Op{K: k, A: a, B: b, C: c}) }
-	n := r.Range(6, 22)
-	for i := 0; i < n; i++ {
-		switch r.Pick(10, 8, 4, 4, 4, 3, 6, 5, 4, 3, 4, 2, 3, 3, 3, 4, 2, 3, 5, 4, 3, 4, 3) {
+	single := func() {
+		switch r.Pick(3, 2, 2, 2, 2, 2, 2, 2, 2, 2, 2, 2, 2, 2, 2, 2, 2) {
 		case 0:
+			add("sstore", r.Intn(4), r.Intn(4), r.Intn(4))
+		case 1:
+			add("destroy", r.Intn(4), 0, 0)
+		case 2:
+			add("convert", r.Intn(3), r.Intn(50), r.Intn(3))
+		case 3:
+			add("tf_admin", r.Intn(5), r.Intn(5), 1)
+		case 4:
+			add("tf_mint", r.Intn(5), r.Intn(1000), r.Intn(5))
+		case 5:
+			add("sudo_rm", r.Intn(5), r.Intn(3), 0)
+		case 6:
+			add("sudo_root", r.Intn(5), 0, 0)
+		case 7:
+			add("infl_toggle", r.Intn(2), 0, 0)
+		case 8:
+			add("epoch", r.Intn(3), 0, 0)
+		case 9:
+			add("block", r.Intn(6), 0, 0)
+		case 10:
+			add("fs_del", r.Intn(5), 0, 0)
+		case 11:
+			add("or_vote", 1+r.Intn(7), 0, 0)
+		case 12:
+			add("or_tally", 0, 0, 0)
+		case 13:
+			add("or_delegate", r.Intn(3), r.Intn(5), 0)
+		case 14:
+			add("tf_md", r.Intn(5), r.Intn(5), 0)
+		case 15:
+			add("ftcoin", r.Intn(2), r.Intn(4), 0)
+		case 16:
+			add("or_alloc", r.Intn(50), r.Intn(4), 0)
+		}
+	}
+	nseg := r.Range(4, 10)
+	for i := 0; i < nseg; i++ {
+		if r.Chance(1, 5) {
+			single()
+			continue
+		}
+		switch r.Pick(5, 3, 4, 3, 3, 3, 4, 3, 2, 2) {
+		case 0: // contracts: constructor storage, later writes / clears, maybe a self-destruct, maybe empty code
 			var slots [][2]int
 			for j := r.Intn(4); j > 0; j-- {
 				slots = append(slots, [2]int{r.Intn(4), r.Intn(5)})
 			}
-			empty := 0
-			if r.Chance(1, 8) {
-				empty = 1
+			ops = append(ops, c20Op{K: "deploy", A: r.Intn(3), B: r.Intn(3), C: boolInt(r.Chance(1, 7)), Slots: slots})
+			for j := r.Intn(3); j > 0; j-- {
+				add("sstore", r.Intn(4), r.Intn(4), r.Intn(4))
 			}
-			ops = append(ops, c20Op{K: "deploy", A: r.Intn(3), B: r.Intn(3), C: empty, Slots: slots})
-		case 1:
-			add("sstore", r.Intn(4), r.Intn(4), r.Intn(4)) // value 0 clears the slot
-		case 2:
-			add("destroy", r.Intn(4), 0, 0)
-		case 3:
+			if r.Chance(1, 4) {
+				add("destroy", r.Intn(4), 0, 0)
+			}
+		case 1: // FunToken from an ERC20
 			add("erc20", r.Intn(3), r.Intn(20), 0)
-		case 4:
+		case 2: // FunToken from a coin (+ conversion into the ERC20)
 			add("ftcoin", r.Intn(2), r.Intn(4), 0)
-		case 5:
-			add("convert", r.Intn(3), r.Intn(50), r.Intn(3))
-		case 6:
+			if r.Chance(2, 3) {
+				add("convert", r.Intn(3), r.Intn(50), r.Intn(3))
+			}
+		case 3: // token factory: create, hand over, custom metadata, mint
 			add("tf_create", r.Intn(5), r.Intn(4), 0)
-		case 7:
-			add("tf_admin", r.Intn(5), r.Intn(5), boolInt(r.Chance(1, 5)))
-		case 8:
-			add("tf_md", r.Intn(5), r.Intn(5), 0)
-		case 9:
-			add("tf_mint", r.Intn(5), r.Intn(1000), r.Intn(5))
-		case 10:
+			if r.Chance(2, 3) {
+				add("tf_admin", r.Intn(5), r.Intn(5), 0)
+			}
+			if r.Chance(1, 2) {
+				add("tf_md", r.Intn(5), r.Intn(5), 0)
+			}
+			if r.Chance(1, 2) {
+				add("tf_mint", r.Intn(5), r.Intn(1000), r.Intn(5))
+			}
+		case 4: // sudoers
 			add("sudo_add", r.Intn(5), r.Intn(3), 0)
-		case 11:
-			add("sudo_rm", r.Intn(5), r.Intn(3), 0)
-		case 12:
-			add("sudo_root", r.Intn(5), 0, 0)
-		case 13:
-			add("infl_toggle", r.Intn(2), 0, 0)
-		case 14:
-			add("infl_params", r.Intn(5), r.Intn(40), 0)
-		case 15:
+			if r.Chance(1, 2) {
+				add("sudo_rm", r.Intn(5), r.Intn(3), 0)
+			}
+			if r.Chance(1, 4) {
+				add("sudo_root", r.Intn(5), 0, 0)
+			}
+		case 5: // inflation: params, on, a few epochs, maybe off and more epochs (skipped epochs)
+			if r.Chance(1, 2) {
+				add("infl_params", r.Intn(5), r.Intn(40), 0)
+			}
+			add("infl_toggle", 1, 0, 0)
 			add("epoch", r.Intn(3), 0, 0)
-		case 16:
-			add("block", r.Intn(6), 0, 0)
-		case 17:
-			add("fs_set", r.Intn(5), r.Intn(5), r.Intn(5))
-		case 18:
-			add("or_prevote", 1+r.Intn(7), r.Intn(9), 0)
-		case 19:
-			add("or_vote", 1+r.Intn(7), 0, 0)
-		case 20:
+			if r.Chance(1, 2) {
+				add("infl_toggle", 0, 0, 0)
+				add("epoch", r.Intn(3), 0, 0)
+			}
+		case 6: // a full oracle round: some validators vote, the rest collect a miss counter; rates are set
+			m := 1 + r.Intn(7)
+			add("or_prevote", m, r.Intn(9), 0)
+			add("or_vote", m&(1+r.Intn(7)), 0, 0)
 			add("or_tally", 0, 0, 0)
-		case 21:
+		case 7: // votes / prevotes left pending
+			m := 1 + r.Intn(7)
+			add("or_prevote", m, r.Intn(9), 0)
+			if r.Chance(2, 3) {
+				add("or_vote", 1+r.Intn(7), 0, 0)
+				if r.Chance(1, 2) {
+					add("or_prevote", 1+r.Intn(7), r.Intn(9), 0)
+				}
+			}
+		case 8: // rewards pending (possibly partly paid out by a later tally)
 			add("or_alloc", r.Intn(50), r.Intn(4), 0)
-		case 22:
+			if r.Chance(1, 2) {
+				add("or_alloc", r.Intn(50), r.Intn(4), 0)
+			}
+		case 9: // fee shares and feeder delegations
+			add("fs_set", r.Intn(5), r.Intn(5), r.Intn(5))
+			if r.Chance(1, 2) {
+				add("fs_set", r.Intn(5), r.Intn(5), r.Intn(5))
+			}
 			if r.Chance(1, 2) {
 				add("or_delegate", r.Intn(3), r.Intn(5), 0)
-			} else {
-				add("fs_del", r.Intn(5), 0, 0)
 			}
 		}
 	}
@@ -269,7 +332,7 @@ func c20Openers() []c20Input {
 }
 
 func TestC20(t *testing.T) {
-	cfg := LoadCfg(t, 40, 400)
+	cfg := LoadCfg(t, 80, 800)
 	em := NewEmitter(t, cfg.Out)
 	defer em.Close()
 	run := func(in c20Input) {
